@@ -134,6 +134,12 @@ func (g *concGen) program(nrows int) []CTxn {
 			}
 		}
 		tx.Rollback = g.rnd.Float64() < g.p.PRollback
+		for _, op := range tx.Ops {
+			// the usual pattern: the callback's error is returned and the transaction rolls back
+			if op.Fail && g.rnd.Float64() < 0.7 {
+				tx.Rollback = true
+			}
+		}
 		prog = append(prog, tx)
 	}
 	return prog
